@@ -14,6 +14,7 @@
 EXTENDS Emit
 
 CONSTANTS PermuteModules,  \* TRUE: modules may be added in any order
+          SpuriousPass,    \* TRUE: model the extra pass the code may take when the map was resized (see EndPass)
           AllSchedules     \* TRUE: every pick order in every pass; FALSE: one fixed order (groups whose
                            \* properties do not quantify over schedules; C09/C10/C12 always use TRUE)
 
@@ -26,9 +27,10 @@ VARIABLES input,   \* [ptr, mods : Seq(Module)]  -- chosen initially, never chan
           todo,    \* items of the current pass not yet attempted
           hist,    \* schedule taken: per pass [s : unresolved set at its start, p : picks in order]
           err,     \* "" or the failure class
-          out      \* emitted files: a set of abstract files (each carries its path)
+          out,     \* emitted files: a set of abstract files (each carries its path)
+          aux      \* [insd : a registry insertion happened in this pass, extra : spurious passes taken]
 
-vars == <<input, phase, added, mods, reg, start, todo, hist, err, out>>
+vars == <<input, phase, added, mods, reg, start, todo, hist, err, out, aux>>
 
 RootMods == (<<>> :> [mi |-> 0, defs |-> {<<n>> : n \in BuiltinNames}])
 
@@ -44,6 +46,7 @@ InitRest ==
   /\ hist = <<>>
   /\ err = ""
   /\ out = {}
+  /\ aux = [insd |-> FALSE, extra |-> 0]
 
 ModRec(mi) == input.mods[mi]
 
@@ -95,7 +98,7 @@ AddModule(mi) ==
                            IF q = m.path THEN [mi |-> mi, defs |-> paths] ELSE mods[q]]
              /\ reg' = PutExts(PutDefs(reg, mi, m, 1, Len(m.defs)), mi, m, 1, Len(m.exts))
              /\ UNCHANGED <<phase, err>>
-     /\ UNCHANGED <<input, start, todo, hist, out>>
+     /\ UNCHANGED <<input, start, todo, hist, out, aux>>
 
 (* ------------------------------ build ---------------------------------- *)
 BeginPass ==
@@ -104,7 +107,7 @@ BeginPass ==
   /\ LET u == Unresolved(reg)
      IN IF u = {} THEN /\ phase' = "externs" /\ UNCHANGED <<start, todo, hist>>
         ELSE /\ phase' = "pass" /\ start' = u /\ todo' = u /\ hist' = Append(hist, [s |-> u, p |-> <<>>])
-  /\ UNCHANGED <<input, added, mods, reg, err, out>>
+  /\ UNCHANGED <<input, added, mods, reg, err, out, aux>>
 
 ApplyIns(r, ins) == IF ins = <<>> THEN r ELSE RegPut(r, ins[1][1], ins[1][2])
 
@@ -122,6 +125,7 @@ DoAttempt(p) ==
       a == Attempt(reg, input.ptr, m, item.src, p, d)
       reg1 == ApplyIns(reg, a.ins)
   IN /\ hist' = [hist EXCEPT ![Len(hist)] = [@ EXCEPT !.p = Append(@, p)]]
+     /\ aux' = IF item.st = "U" /\ a.ins # <<>> THEN [aux EXCEPT !.insd = TRUE] ELSE aux
      /\ todo' = todo \ {p}
      /\ IF item.st = "R"     \* replaced by a resolved entry earlier in this pass: skipped
         THEN UNCHANGED <<reg, mods, phase, err>>
@@ -140,11 +144,17 @@ EndPass ==
   /\ phase = "pass"
   /\ todo = {}
   /\ LET u == Unresolved(reg)
+         next == /\ start' = u /\ todo' = u /\ hist' = Append(hist, [s |-> u, p |-> <<>>]) /\ UNCHANGED <<phase, err>>
      IN IF u = start
-        THEN /\ phase' = "failed" /\ err' = "nonterm" /\ UNCHANGED <<start, todo, hist>>
+        THEN (* no progress: the code compares the two Vecs *including order*; when an insertion     *)
+             (* (even the re-insertion of a generated item) made the HashMap resize, the order has   *)
+             (* changed and the loop takes one more pass before it reports the error                 *)
+             \/ /\ phase' = "failed" /\ err' = "nonterm" /\ UNCHANGED <<start, todo, hist, aux>>
+             \/ /\ SpuriousPass /\ aux.insd /\ aux.extra < 2
+                /\ next /\ aux' = [insd |-> FALSE, extra |-> aux.extra + 1]
         ELSE IF u = {}
-        THEN /\ phase' = "externs" /\ UNCHANGED <<start, todo, hist, err>>
-        ELSE /\ start' = u /\ todo' = u /\ hist' = Append(hist, [s |-> u, p |-> <<>>]) /\ UNCHANGED <<phase, err>>
+        THEN /\ phase' = "externs" /\ UNCHANGED <<start, todo, hist, err, aux>>
+        ELSE /\ next /\ aux' = [aux EXCEPT !.insd = FALSE]
   /\ UNCHANGED <<input, added, mods, reg, out>>
 
 (* resolve_extern_values: every extern value's type must resolve now       *)
@@ -157,14 +167,14 @@ ResolveExterns ==
   /\ phase = "externs"
   /\ IF ExternsOk THEN phase' = "emit" /\ UNCHANGED err
      ELSE phase' = "failed" /\ err' = "unresolved-extern-value"
-  /\ UNCHANGED <<input, added, mods, reg, start, todo, hist, out>>
+  /\ UNCHANGED <<input, added, mods, reg, start, todo, hist, out, aux>>
 
 EmitAll ==
   /\ phase = "emit"
   /\ out' = {EmitModule(reg, input.ptr, ModRec(mods[q].mi), mods[q].defs) :
                  q \in (DOMAIN mods) \ {<<>>}}
   /\ phase' = "done"
-  /\ UNCHANGED <<input, added, mods, reg, start, todo, hist, err>>
+  /\ UNCHANGED <<input, added, mods, reg, start, todo, hist, err, aux>>
 
 Terminal == phase \in {"done", "failed"}
 
@@ -185,7 +195,8 @@ Total == Terminal \/ ENABLED (\E mi \in DOMAIN input.mods : AddModule(mi))
 
 (* standard VIEW: schedule history hidden, and the bookkeeping of the last pass ignored once *)
 (* the behaviour is over, so one input has one terminal state per distinct outcome          *)
-StdView == <<input, phase, added, mods, reg, IF Terminal THEN {} ELSE start, IF Terminal THEN {} ELSE todo, err, out>>
+StdView == <<input, phase, added, mods, reg, IF Terminal THEN {} ELSE start, IF Terminal THEN {} ELSE todo, err, out,
+             IF Terminal THEN 0 ELSE aux>>
 
 Accepted == phase = "done"
 Rejected == phase = "failed"
